@@ -26,7 +26,7 @@ TECHNIQUE = "runtime monitoring: differential check of the staged join against t
 
 def gen_cases(tier, seed):
     rnd = random.Random(f"C14-{seed}")
-    n = 32 if tier == "quick" else 320
+    n = 32 if tier == "quick" else 200
     mets = ["ENERGY", "LATENCY", "ENERGY_DELAY_PRODUCT", "ENERGY|LATENCY", "ENERGY|LATENCY|RESOURCE_USAGE"]
     cases = []
     for i in range(n):
